@@ -85,6 +85,14 @@ class Monitor(object):
         self.need_nick_ident = "U" in pol
         self.policy = pol
         self.closed_ids = {}     # id -> reason of last close
+        # protocol of every service name ever configured in this history (a service retired by a reload still owes
+        # its answers to the clients that were asked; generators never give one name two protocols)
+        self.protos = {n: p for n, p in self.cfg.services}
+        self.stats["reloads"] = 0
+        self.stats["instances_crossing_reload"] = 0
+
+    def proto_of(self, svc):
+        return self.protos.get(svc)
 
     def v(self, prop, rule, text, sig=None):
         self.viol.append(V(prop, rule, text, self.idx, sig))
@@ -179,6 +187,20 @@ class Monitor(object):
         if t in ("disconnect", "registered"):
             self.close(cid, t)
             return
+        if t == "reload":
+            # SIGUSR1 with a new file: later clients are served by the new table / rules.  Clients that are in the middle of
+            # their registration are outside what C06 / C17 say about which services are asked (recorded assumption):
+            # their queries are still tracked (answers are owed), but not judged for timing.
+            self.cfg = proto.Config([tuple(x) for x in ev["services"]], self.cfg.timeout,
+                                    ev["rules"] if ev.get("rules") is not None else self.cfg.rules, self.cfg.use_class)
+            for n, p in self.cfg.services:
+                self.protos.setdefault(n, p)
+            self.stats["reloads"] += 1
+            for inst in self.open.values():
+                if not getattr(inst, "crossed_reload", False):
+                    inst.crossed_reload = True
+                    self.stats["instances_crossing_reload"] += 1
+            return
         if t in ("reply", "unlinked"):
             self.apply_reply(ev)
             return
@@ -253,7 +275,7 @@ class Monitor(object):
             return
         ctx["target"] = i
         svc = ev["svc"]
-        protoname = self.cfg.proto_of(svc)
+        protoname = self.proto_of(svc)
         final = False
         if ev["t"] == "unlinked":
             final = True
@@ -439,11 +461,25 @@ class Monitor(object):
         elif i.serial != serial:
             self.v("C01", "serial-changed", "client %d instance %d queried with serial %x after %x" % (cid, i.k, serial, i.serial))
         svc = c["svc"]
-        protoname = self.cfg.proto_of(svc)
+        protoname = self.proto_of(svc)
         text = c["text"]
         verb = text.split(" ", 1)[0]
         if protoname is None:
             self.v("C06", "query-unconfigured", "query to a service that is not configured: %r" % ln)
+            return
+        if getattr(i, "crossed_reload", False):
+            # mid-registration across a reload: which services are asked, and when, is not judged; the answer is owed all the same
+            if (cid, svc) not in ctx["step_queried"]:
+                ctx["step_queried"].add((cid, svc))
+                i.queried[svc] = i.queried.get(svc, 0) + 1
+            if verb == "MORE":
+                ctx["more_targets"].discard(svc)
+            i.awaiting.add(svc)
+            if i.timeout_fired:
+                i.query_after_timeout = True
+            return
+        if self.cfg.proto_of(svc) is None:
+            self.v("C06", "query-unconfigured", "query about a client announced after the reload to a service the current file does not list: %r" % ln)
             return
         first_in_step = (cid, svc) not in ctx["step_queried"]
         if verb == "MORE":
@@ -510,7 +546,7 @@ class Monitor(object):
         if em is not None and not [1 for (i, t) in ctx["saw_M"] if i is em]:
             self.v("C05", "mode-missing", "client %d asked for host hiding (%s) and got an account in this step but no +x was sent" % (em.id, sorted(em.modes)))
         for svc in ctx["more_targets"]:
-            if ctx["target"] is not None and ctx["target"].id in self.open:
+            if ctx["target"] is not None and ctx["target"].id in self.open and not getattr(ctx["target"], "crossed_reload", False):
                 self.v("C06", "more-not-forwarded", "client %d answered the challenge of %s but no MORE query was sent" % (ctx["target"].id, svc))
         # C03 / C06 per open instance
         # an instance's conditions only change in steps that concern it (its own event, a reply
@@ -525,13 +561,16 @@ class Monitor(object):
             if self.open.get(cid) is not i:
                 continue
             self.stats["stuck_evaluations"] += 1
+            crossed = getattr(i, "crossed_reload", False)
             for svc, protoname in self.cfg.services:
+                if crossed:
+                    break
                 if i.queried.get(svc, 0) == 0 and self.prereq(i, protoname):
                     self.v("C06", "query-skipped", "client %d: everything protocol %s of %s needs is known (or hurry-up) at the end of step %r but no query was sent" % (
                         cid, protoname, svc, proto.render(self.ev)), sig="query-skipped:" + protoname)
             # credentials: a service whose protocol carries them must have been sent the client's latest
             # well-formed password once everything that protocol needs is known
-            if i.pw is not None:
+            if i.pw is not None and not crossed:
                 for svc, protoname in self.cfg.services:
                     if protoname in proto.LOGIN_TYPES and self.prereq(i, protoname, "LOGIN") and i.cred_sent.get(svc) != i.pw:
                         self.v("C06", "credentials-not-forwarded", "client %d: %s (%s) has not been sent the client's latest credentials %r by the end of step %r (last sent: %r)" % (
